@@ -14,10 +14,11 @@ AllDevs == {"C18.create_table_metadata_not_atomic"}
 NoTab == [e |-> FALSE, n |-> 0, c |-> "", l |-> 0]
 Empty == [t1 |-> NoTab, t2 |-> NoTab]
 InitSt == [x |-> 0]
-Stmts == {"ct1", "ct2", "i1", "i2", "cm1", "dt1", "begin", "commit", "rollback"}
+Stmts == {"ct1", "ct2", "cr1", "i1", "i2", "cm1", "dt1", "begin", "commit", "rollback"}
 \* the effect of one statement on the (session-visible) tables; statements that fail (missing table) change nothing
 Apply(s, x) ==
   CASE s = "ct1" -> IF x.t1.e THEN x ELSE [x EXCEPT !.t1 = [e |-> TRUE, n |-> 0, c |-> "c1", l |-> 5]]     \* CREATE TABLE t1 (a VARCHAR(5)) COMMENT = 'c1'
+    [] s = "cr1" -> [x EXCEPT !.t1 = [e |-> TRUE, n |-> 0, c |-> "c1", l |-> 5]]                             \* CREATE OR REPLACE TABLE t1 (a VARCHAR(5)) COMMENT = 'c1'
     [] s = "ct2" -> IF x.t2.e THEN x ELSE [x EXCEPT !.t2 = [e |-> TRUE, n |-> 0, c |-> "", l |-> 16777216]] \* CREATE TABLE t2 (a VARCHAR)
     [] s = "i1"  -> IF x.t1.e THEN [x EXCEPT !.t1.n = @ + 1] ELSE x
     [] s = "i2"  -> IF x.t2.e THEN [x EXCEPT !.t2.n = @ + 1] ELSE x
@@ -47,6 +48,11 @@ Obs(done, rec, files) == [done |-> done, rec |-> rec, files |-> files, use |-> "
 Partial(s, before) ==
   IF s = "ct1" /\ ~before.t1.e THEN {[before EXCEPT !.t1 = [e |-> TRUE, n |-> 0, c |-> "", l |-> 0]],
                                     [before EXCEPT !.t1 = [e |-> TRUE, n |-> 0, c |-> "c1", l |-> 0]]}
+  \* replacing an existing t1: the new (empty) table first shows the OLD comment and length rows (the side tables are keyed by name)
+  ELSE IF s = "cr1" /\ before.t1.e THEN {[before EXCEPT !.t1 = [e |-> TRUE, n |-> 0, c |-> before.t1.c, l |-> before.t1.l]],
+                                         [before EXCEPT !.t1 = [e |-> TRUE, n |-> 0, c |-> "c1", l |-> before.t1.l]]}
+  ELSE IF s = "cr1" THEN {[before EXCEPT !.t1 = [e |-> TRUE, n |-> 0, c |-> "", l |-> 0]],
+                          [before EXCEPT !.t1 = [e |-> TRUE, n |-> 0, c |-> "c1", l |-> 0]]}
   ELSE IF s = "ct2" /\ ~before.t2.e THEN {[before EXCEPT !.t2 = [e |-> TRUE, n |-> 0, c |-> "", l |-> 0]]}
   ELSE {}
 
